@@ -525,3 +525,18 @@ Definition w_canon_progs : list (list step) :=
 Definition w_canon_sched : list (tid * option nat) :=
   [(0, Some 2); (1, Some 2); (0, None); (1, None); (2, None)]%nat.
 Definition w_canon_sched_serial : list (tid * option nat) := [(0, None); (1, None); (2, None)]%nat.
+
+(* the same two schedules step by step (one thread id per executed step) *)
+Definition w_err_fine : list tid :=
+  (repeat 0 9 ++ repeat 1 9 ++ repeat 2 9 ++ repeat 3 9 ++ repeat 4 9 ++ repeat 0 3 ++ repeat 5 9 ++ repeat 0 2)%nat.
+Definition w_canon_fine : list tid :=
+  (repeat 0 2 ++ repeat 1 2 ++ repeat 0 7 ++ repeat 1 7 ++ repeat 2 8)%nat.
+Definition w_canon_fine_serial : list tid := (repeat 0 9 ++ repeat 1 4 ++ repeat 2 8)%nat.
+
+Definition all_done (st : state) : bool := forallb (fun ts => match t_rem ts with [] => true | _ => false end) (s_thr st).
+
+(* two unlocked removals of a string with one reference: both find it, both decrement *)
+Definition w_nolock_progs : list (list step) :=
+  [[DictRemFind w_canon_str; DictRemDec w_canon_str]; [DictRemFind w_canon_str; DictRemDec w_canon_str]].
+Definition w_nolock_fine : list tid := [0; 1; 0; 1]%nat.
+Definition w_one_ref : dictT := dupd (fun _ => 0) w_canon_str 1.
